@@ -121,3 +121,27 @@ pub fn inject_fault(name: &str) -> bool {
     *n += 1;
     list.contains(n)
 }
+
+// ---------------------------------------------------------------------------
+// H4: file-mutation events. After each completed write / create / delete of a log,
+// index, consumer-offset or state file the armed callback is told (kind, path), so a
+// harness can freeze the data directory as a crash image. Disarmed: nothing happens.
+
+type FsCallback = std::sync::Arc<dyn Fn(&str, &str) + Send + Sync>;
+static FS_EVENTS_ARMED: AtomicBool = AtomicBool::new(false);
+static FS_CALLBACK: Mutex<Option<FsCallback>> = Mutex::new(None);
+
+pub fn set_fs_event_callback(callback: Option<FsCallback>) {
+    FS_EVENTS_ARMED.store(callback.is_some(), Ordering::SeqCst);
+    *FS_CALLBACK.lock().unwrap() = callback;
+}
+
+pub async fn fs_event(kind: &str, path: &str) {
+    if !FS_EVENTS_ARMED.load(Ordering::Relaxed) {
+        return;
+    }
+    let callback = FS_CALLBACK.lock().unwrap().clone();
+    if let Some(callback) = callback {
+        callback(kind, path);
+    }
+}
